@@ -72,7 +72,7 @@ def run(chk: harness.Check):
         "(known, unknown, other, no_unit) directly or through another covering reader; (D3) every insert into a quantity map has its result used, is "
         "dominated by a test that the key is absent, or is a reviewed entry; (D4) all_quantities/all_amounts chain the own quantity with the quantities of "
         "referenced_from indices taken from the passed slice, group_* list definitions only, add_recipe lists should_be_listed() ingredients under display_name(). "
-        "(D7) every number in the result of <Value as TryAdd>::try_add is Number::value() of the left operand plus Number::value() of the right one, start with start and end with end. "
+        "(D8 = C09.D5/D8) a range total re-expressed in another unit has both ends converted; (D7) every number in the result of <Value as TryAdd>::try_add is Number::value() of the left operand plus Number::value() of the right one, start with start and end with end. "
         "Conservation of numbers is otherwise not decided — only that no path or reader structurally drops a quantity.")
     chk.trusted = ["rustc MIR", "Vec::push / HashMap::insert store their argument", "tables/inserts.toml"]
     chk.analysed = {"facts": th}
@@ -83,6 +83,13 @@ def run(chk: harness.Check):
     d5_text_aside(chk, F)
     d6_common_unit(chk, F)
     d7_sum_formula(chk, F)
+    # D8: grouping fits every total to a nicer unit (GroupedQuantity::fit -> Quantity::fit -> fit_fraction): "never lose or invent
+    # amounts" needs both ends of a re-expressed range converted to the new unit — the obligation decided for C09
+    import c09
+    sub = harness.Check("C09", chk.tier)
+    c09.run(sub)
+    harness.fold(chk, sub, lambda r: "C10.D8-fit." + r.split(".", 1)[1] if r.startswith("C09.") else r,
+                 keep=lambda r: r in ("C09.D5-fit-range", "C09.D8-value-unit-together", "anchor-missing"))
 
 
 def d1_no_drop(chk, F):
